@@ -35,6 +35,8 @@ func main() {
 		err = runC17(opt)
 	case "sm":
 		err = runSM(opt)
+	case "c01":
+		err = runC01(opt)
 	case "tm":
 		err = runTM(opt)
 	case "tsmoke":
